@@ -827,8 +827,12 @@ ODD_LAYOUTS = ("inner",) if KNOWN_DEFECT_similarity_check_compares_only_common_p
          stubs=STUBS, qtimeout_ms=20000,
          instances={"quick": [dict(n=3, kind="flux", layout="inner", pattern="sparse"),
                               dict(n=4, kind="volume", layout="inner")],
+                    # (4 members with flux weights AND symbolic temperatures: 15-25 min per instance and solver
+                    # unknowns on the weighted-mean identities: left out, stated as outside the bound; 4 members run
+                    # with volume weights, flux weights with 3 members)
                     "thorough": [dict(n=n, kind=k, layout=l, pattern=p, temps=True) for n in (3, 4)
-                                 for k in ("flux", "volume") for l in ODD_LAYOUTS for p in ("typical", "shared")]})
+                                 for k in ("flux", "volume") for l in ODD_LAYOUTS for p in ("typical", "shared")
+                                 if not (n == 4 and k == "flux")]})
 def component_average_only_when_all_members_are_alike(ctx, n, kind, layout, pattern="typical", temps=False):
     hs = heights(n)
     pos = ctx.choice("oddMember", list(range(n)) + [None])        # which member has the other layout (None: all alike)
